@@ -284,3 +284,93 @@ func (d *Deflater) compressWith(msg []byte, flushAt []int, bfinal bool) []byte {
 	}
 	return out
 }
+
+// ---------------------------------------------------------------------------
+// hand-made DEFLATE: a block that starts with a back-reference
+
+var (
+	lenBase   = []int{3, 4, 5, 6, 7, 8, 9, 10, 11, 13, 15, 17, 19, 23, 27, 31, 35, 43, 51, 59, 67, 83, 99, 115, 131, 163, 195, 227, 258}
+	lenExtra  = []uint{0, 0, 0, 0, 0, 0, 0, 0, 1, 1, 1, 1, 2, 2, 2, 2, 3, 3, 3, 3, 4, 4, 4, 4, 5, 5, 5, 5, 0}
+	distBase  = []int{1, 2, 3, 4, 5, 7, 9, 13, 17, 25, 33, 49, 65, 97, 129, 193, 257, 385, 513, 769, 1025, 1537, 2049, 3073, 4097, 6145, 8193, 12289, 16385, 24577}
+	distExtra = []uint{0, 0, 0, 0, 1, 1, 2, 2, 3, 3, 4, 4, 5, 5, 6, 6, 7, 7, 8, 8, 9, 9, 10, 10, 11, 11, 12, 12, 13, 13}
+)
+
+type bitWriter struct {
+	out  []byte
+	acc  uint64
+	nacc uint
+}
+
+// bits appends the low n bits of v, least significant bit first.
+func (w *bitWriter) bits(v uint, n uint) {
+	w.acc |= uint64(v) << w.nacc
+	w.nacc += n
+	for w.nacc >= 8 {
+		w.out = append(w.out, byte(w.acc))
+		w.acc >>= 8
+		w.nacc -= 8
+	}
+}
+
+// code appends an n-bit Huffman code, most significant bit first.
+func (w *bitWriter) code(c uint, n uint) {
+	for i := int(n) - 1; i >= 0; i-- {
+		w.bits((c>>uint(i))&1, 1)
+	}
+}
+
+func (w *bitWriter) align() {
+	if w.nacc > 0 {
+		w.bits(0, 8-w.nacc)
+	}
+}
+
+func (w *bitWriter) fixedSym(sym int) {
+	switch {
+	case sym <= 143:
+		w.code(uint(0x30+sym), 8)
+	case sym <= 255:
+		w.code(uint(0x190+sym-144), 9)
+	case sym <= 279:
+		w.code(uint(sym-256), 7)
+	default:
+		w.code(uint(0xC0+sym-280), 8)
+	}
+}
+
+// BackrefProbe returns the payload of a compressed message (RFC 7692 form: the
+// trailing 00 00 ff ff removed) whose DEFLATE stream begins with lits literal
+// bytes followed by one match <length, dist>. A receiver whose history holds fewer
+// than dist-lits bytes must fail to inflate it; a receiver whose window was
+// polluted by someone else's data would deliver that data instead.
+func BackrefProbe(lits []byte, dist, length int) []byte {
+	if length < 3 || length > 258 || dist < 1 || dist > 32768 {
+		panic("BackrefProbe: out of range")
+	}
+	w := &bitWriter{}
+	w.bits(0, 1) // BFINAL=0
+	w.bits(1, 2) // BTYPE=01 fixed Huffman
+	for _, b := range lits {
+		w.fixedSym(int(b))
+	}
+	li := len(lenBase) - 1
+	for lenBase[li] > length {
+		li--
+	}
+	if length != 258 && li == len(lenBase)-1 {
+		li-- // 258 has its own code; 227..257 use code 284
+	}
+	w.fixedSym(257 + li)
+	w.bits(uint(length-lenBase[li]), lenExtra[li])
+	di := len(distBase) - 1
+	for distBase[di] > dist {
+		di--
+	}
+	w.code(uint(di), 5)
+	w.bits(uint(dist-distBase[di]), distExtra[di])
+	w.fixedSym(256)
+	// the empty stored block of a sync flush, minus its 00 00 ff ff
+	w.bits(0, 3)
+	w.align()
+	return w.out
+}
